@@ -147,6 +147,8 @@ Not decided: that nom delivers the components it saw (run-time parser semantics)
     non_exhaustive(m, ctx, &ev);
     groups(m, ctx, &ev);
     reset_rule(m, ctx, "C05.env", "extensibility_environment");
+    // the TypeScript backend's side of "extensible exactly when ..." (= C18.shape's implied-flag rules)
+    crate::rules::c18::implied_flag(m, ctx, "C05.ts");
 }
 
 /// sequence / set / choice deliver (root, marker, additions) in that order; enumerated_body likewise
